@@ -6,18 +6,26 @@ prop("C02", "fault_enumeration",
      "ClientRequestHidden, ServerResponseHidden): xor mask at EVERY byte offset (quick: masks 0x01/0x80, plus 0xff near the edges; thorough: every single-bit mask and "
      "0xff), truncation to a length (quick: every 5th length plus edges; thorough: every length), truncation after the complete "
      "datagram was first sent to the server from a third address (primes its shared read buffer), extension by 1/16 bytes (informational only - the statement does not cover "
-     "trailing additions), replacement by the same-numbered datagram of another handshake (same / other client identity); plus "
-     "rapid-drawn random alterations. Oracle: the party receiving the altered datagram does not complete (client: Handshake "
+     "trailing additions), replacement by the same-numbered datagram of another handshake (same / other client identity), "
+     "and - for every datagram that carries a session id (ServerAuth, ClientAuth, ServerResponseHidden) - the four id bytes overwritten with the id of "
+     "ANOTHER session living on the same server (an established session of the same / another client, or a half-open handshake "
+     "whose ClientAuth was lost; the id is read off the wire); plus rapid-drawn random alterations. Certificate policy is a dimension of its own: the "
+     "datagrams that carry certificates (whose processing depends on the receiver's policy) are swept again (every offset x 0x01/0x80, edge "
+     "truncations, transplants, session-id overwrites) with the receiving client set to skip-verify / authorized-keys and the receiving server to "
+     "skip-verify / authorized-keys / no client verification (thorough: also authorized-keys-else-CA-store and CA-store+callback); the random unit "
+     "draws both parties' policies in every case. Oracle: the party receiving the altered datagram does not complete (client: Handshake "
      "returns an error; server: no established session offered by Accept); whenever both sides complete: equal session id, equal "
-     "directional keys, c2s != s2c, non-zero, and no key ever repeats within the process. Non-trivial = an altered run; distinct "
-     "by (mode, message, kind, offset, mask, length).",
+     "directional keys, c2s != s2c, non-zero, and no key ever repeats within the process; an already completed other session keeps the keys both of its "
+     "parties agreed on. A violation found under a non-default policy of the completing party is re-run under the default policies: the "
+     "signature names the policy only if the default policy rejects the same alteration. Non-trivial = an altered run; distinct "
+     "by (mode, message, kind, offset, mask, length, identity, policies).",
      ["ML-KEM, X25519, Ed25519 and the Cyclist duplex are not attacked by search; alterations are structural",
       "client HSTimeout 2 s / server HandshakeTimeout 5 s (virtual) turn a dropped continuation into an error"],
      [dict(name="sweep", pkg="transport", run="^TestVerifC02Sweep$", shards=dict(quick=16, thorough=16), timeout=dict(quick=900, thorough=7200)),
       dict(name="random", pkg="transport", run="^TestVerifC02Random$", shards=dict(quick=8, thorough=16), thorough_scale=600)],
      exhaustive_core=True,
      text="Fault enumeration over the handshake wire: one altered datagram per run, enumerated over messages x offsets x masks / "
-          "truncation lengths / transplants, with white-box comparison of the session keys of every completed pair.",
+          "truncation lengths / transplants / session ids of other live sessions, under each certificate policy of the receiver, with white-box comparison of the session keys of every completed pair.",
      note="trusts synctest, simnet, the white-box read of SessionState; cryptographic primitives are treated as ideal",
      technique="enumerated fault injection on generated handshakes (one altered datagram per run) + rapid random alterations",
      design="DESIGN.md section 4, C02")
